@@ -919,6 +919,28 @@ def _m_fit5(P, T, rng):
             tt['duct_ftf'] = [x - shrink for x in tt['duct_ftf']]
 
 
+@mut('pins_misfit_lowfidelity:by_less_than_two_wires',
+     'Assembly/duct_ftf (use_low_fidelity_model)',
+     'pins do not fit in duct', 'reject', needs=('lf', 'wire'))
+def _m_fit_lf1(P, T, rng):
+    # the bundle (over its wires) is wider than the duct by 0.3-1.7 wire
+    # diameters: the pins alone would still fit, pins + wires do not
+    t = P['types'][T]
+    shrink = (min(t['duct_ftf']) - bundle_ftf(t)) + float(
+        rng.uniform(0.3, 1.7)) * t['wire_diameter']
+    t['duct_ftf'] = [x - shrink for x in t['duct_ftf']]
+
+
+@mut('pins_misfit_lowfidelity:far', 'Assembly/duct_ftf '
+     '(use_low_fidelity_model)', 'pins do not fit in duct', 'reject',
+     needs=('lf',))
+def _m_fit_lf2(P, T, rng):
+    t = P['types'][T]
+    shrink = (min(t['duct_ftf']) - bundle_ftf(t)) + float(
+        rng.uniform(0.003, 0.01))
+    t['duct_ftf'] = [x - shrink for x in t['duct_ftf']]
+
+
 @mut('wire_gt_gap:barely', 'Assembly/wire_diameter',
      'wire thicker than pin gap', 'reject', needs=('wire', 'nolf'))
 def _m_wire1(P, T, rng):
@@ -1962,6 +1984,11 @@ def cases(tier, seed):
         for j in range(n):
             out.append({'name': 'B-%s-%d' % (m['id'], j), 'kind': 'mutant',
                         'mut': m['id'], 'seed': [seed, 4, j]})
+    for f_ in ('negative_power', 'one_pin_missing', 'ends_below_core_top'):
+        for j in range(2 if quick else 12):
+            out.append({'name': 'B-history-%s-%d' % (f_, j),
+                        'kind': 'history', 'fault': f_,
+                        'seed': [seed, 6, j]})
     # the repository's own example inputs are valid by construction: each
     # must be swept (a reader that starts refusing valid input is as much a
     # violation as one that accepts invalid input)
@@ -2211,8 +2238,73 @@ def run_repo(case, res):
     res.sample({'case': case, 'outcome': outcome})
 
 
+def _csv_fault(lines, fault):
+    rows = [ln.split(',') for ln in lines if ln.strip()]
+    if fault == 'negative_power':
+        for r in rows:
+            if int(float(r[1])) == 1:
+                r[5] = repr(-abs(float(r[5])) - 100.0)
+                break
+    elif fault == 'one_pin_missing':
+        pins = [i for i, r in enumerate(rows) if int(float(r[1])) == 1]
+        del rows[pins[-1]]
+    elif fault == 'ends_below_core_top':
+        zmax = max(float(r[3]) for r in rows)
+        for r in rows:
+            if float(r[3]) == zmax:
+                r[3] = repr(0.9 * zmax)
+    return [','.join(s.strip() for s in r) + '\n' for r in rows]
+
+
+def run_history(case, res):
+    """A valid run, then the power file CHANGED IN PLACE to a faulty one and
+    the input read again in the same process: what was read from that path
+    before must not stand in for what is there now."""
+    import dassh
+    P0, feats, T, rng = _base_for(case, ('nolf', 'pw_pins', 'pw_pos'))
+    key = {'part': 'B', 'fault': case['fault'], 'history': 'same path'}
+    with drive.scratch('c18_') as d, Hooks() as hk:
+        hk.wrap(dassh.assembly.Assembly, 'calculate', label='calc')
+        path = os.path.join(d, 'input.txt')
+        pcsv = os.path.join(d, 'power.csv')
+        gen.write_power_csv(P0, pcsv)
+        with open(path, 'w') as f:
+            f.write(gen.render_text(P0, 'power.csv'))
+        try:
+            inp = drive.read_input(path)
+            drive.build_reactor(inp)
+        except drive.Rejected as e:
+            res.status('rejected', 'base input: %s' % e)
+            return
+        bad = _csv_fault(open(pcsv).readlines(), case['fault'])
+        with open(pcsv, 'w') as f:
+            f.writelines(bad)
+        outcome = 'ran'
+        try:
+            inp2 = drive.read_input(path)
+            r2 = drive.build_reactor(inp2)
+            drive.sweep(r2)
+        except drive.Rejected as e:
+            outcome = 'rejected' if hk.n['calc'] == 0 else 'rejected_late'
+        except CaseTimeout:
+            raise
+        except Exception as e:
+            outcome = 'exception:' + type(e).__name__
+    res.check('B3_fault_in_a_file_read_before_is_rejected',
+              outcome == 'rejected',
+              'power file changed in place to a faulty one (%s) after a '
+              'valid run from the same path in the same process -> %s'
+              % (case['fault'], outcome), key)
+    res.d['obs'] = {'part': 'B', 'id': 'history:' + case['fault'],
+                    'outcome': outcome}
+    res.nontrivial('B/history/' + case['fault'])
+
+
 def run_case(case):
     res = Result(case)
+    if case['kind'] == 'history':
+        run_history(case, res)
+        return res
     if case['kind'] == 'repo':
         run_repo(case, res)
         return res
